@@ -24,6 +24,10 @@ Panicked(nd) == "panic" \in DOMAIN nd.res /\ nd.res.panic
 (* a block whose hooks panic is never committed: it produces no state to judge *)
 Judged(nd) == ~IsRoot(nd) /\ ~(nd.a = "Tick" /\ Panicked(nd))
 
+(* closing first-generation bid on an auction of a cross-pool (bridged) position *)
+BridgedClose1(nd) == nd.a = "BidV1" /\ nd.res.ok /\ HasAuc1(Log[nd.parent].st, nd.args.auc) /\ ~HasAuc1(nd.st, nd.args.auc)
+                     /\ HasId(Pre(nd).borrows, Auc1Of(Log[nd.parent].st, nd.args.auc).b) /\ GetId(Pre(nd).borrows, Auc1Of(Log[nd.parent].st, nd.args.auc).b).bram > 0
+
 (* ---------------------------------------------------------------- C08 on recorded states *)
 C08BooksRoot(nd)   == IsRoot(nd) => BooksLend(Post(nd)) /\ BooksBorrow(CfgOf(nd), Post(nd))
 (* a step in which some position is handed over to a liquidation auction *)
@@ -35,7 +39,10 @@ DropsLend(nd) == HandsOver(nd) /\ \E l \in Range(Pre(nd).lends) :
 C08BooksLend(nd)   == Judged(nd) /\ ~HandsOver(nd) => DBooksLend(Pre(nd), Post(nd))
 C08BooksLendHO(nd) == Judged(nd) /\ HandsOver(nd) /\ ~DropsLend(nd) => DBooksLend(Pre(nd), Post(nd))
 C08BooksLendHD(nd) == Judged(nd) /\ DropsLend(nd) => DBooksLend(Pre(nd), Post(nd))
-C08BooksBorrow(nd) == Judged(nd) => DBooksBorrow(CfgOf(nd), Pre(nd), Post(nd))
+C08BooksBorrow(nd) == Judged(nd) /\ nd.a # "LiquidateV1" /\ ~BridgedClose1(nd) => DBooksBorrow(CfgOf(nd), Pre(nd), Post(nd))
+C08BooksBorrowBr(nd) == Judged(nd) /\ BridgedClose1(nd) => DBooksBorrow(CfgOf(nd), Pre(nd), Post(nd))
+(* first-generation liquidation MESSAGE. NAMED DEVIATION: unlike the sweep it does not take the principal out of the borrowed total. *)
+C08BooksBorrowV1(nd) == Judged(nd) /\ nd.a = "LiquidateV1" => DBooksBorrow(CfgOf(nd), Pre(nd), Post(nd))
 C08Ltv(nd)         == Judged(nd) => LtvOnRelease(CfgOf(nd), Pre(nd), Post(nd))
 C08LtvMis(nd)      == Judged(nd) => LtvOnReleaseMismatched(CfgOf(nd), Pre(nd), Post(nd))
 C08LtvOpenBr(nd)   == Judged(nd) => LtvOnOpenBridged(CfgOf(nd), Pre(nd), Post(nd))
@@ -59,7 +66,7 @@ PostS(nd) == nd.st
 C09OnlyUnsafe(nd)  == Judged(nd) => OnlyUnsafe(CfgOf(nd), PreS(nd), PostS(nd))
 C09Enabled(nd)     == Judged(nd) => OnlyEnabled(CfgOf(nd), PreS(nd), PostS(nd))
 C09SeizeExact(nd)  == Judged(nd) => SeizeExact(CfgOf(nd), PreS(nd), PostS(nd))
-C09Custody(nd)     == Judged(nd) /\ nd.a \in {"Liquidate", "Tick"} => CustodyMoves(CfgOf(nd), PreS(nd), PostS(nd))
+C09Custody(nd)     == Judged(nd) /\ ~CfgOf(nd).v1 /\ nd.a \in {"Liquidate", "Tick"} => CustodyMoves(CfgOf(nd), PreS(nd), PostS(nd))
 (* bounded response: consecutive blocks during which position bid stayed open, unsafe and enabled (ghost along the path) *)
 IsBlock(nd) == nd.a = "Tick" /\ ~Panicked(nd)
 Bad(liquid, cfg, S, bid) == IF liquid THEN StillBadLiquid(cfg, S, bid) ELSE StillBad(cfg, S, bid)
@@ -104,6 +111,70 @@ C10ProceedsE(nd)   == CloseReady(nd) /\ EmodeB(nd) => CloseProceeds(CfgOf(nd), P
 C10Bridged(nd)     == CloseReady(nd) => CloseBridged(CfgOf(nd), PreS(nd), PostS(nd), BidAuc(nd), CloseL(nd), CloseB(nd))
 C10Owner(nd)       == CloseReady(nd) => CloseOwner(CfgOf(nd), PreS(nd), PostS(nd), BidAuc(nd), CloseL(nd), CloseB(nd))
 C10Records(nd)     == CloseReady(nd) => CloseRecords(CfgOf(nd), PreS(nd), PostS(nd), BidAuc(nd), CloseL(nd), CloseB(nd))
+
+(* ---------------------------------------------------------------- first generation (x/liquidation, x/auction) *)
+IsV1(nd) == CfgOf(nd).v1
+(* ghost: some earlier step of this behaviour overwrote a live first-generation locked vault; what follows is judged only by C09_BorrowV1VaultIdsFresh *)
+RECURSIVE Corrupt(_)
+Corrupt(i) == LET nd == Nd(i) IN IF IsRoot(nd) THEN FALSE ELSE OverwritesVault(PreS(nd), PostS(nd)) \/ Corrupt(nd.parent)
+Sane(i) == LET nd == Nd(i) IN IsRoot(nd) \/ ~IsV1(nd) \/ ~Corrupt(i)
+C09V1Fresh(nd) == Judged(nd) /\ IsV1(nd) => ~OverwritesVault(PreS(nd), PostS(nd))
+EmodeMsg(nd) == nd.a = "LiquidateV1" /\ \E b \in SeizedV1(PreS(nd), PostS(nd)) : PairC(CfgOf(nd), b.pair).emode
+C09V1OnlyUnsafeEM(nd) == Judged(nd) /\ EmodeMsg(nd) => V1OnlyUnsafe(CfgOf(nd), PreS(nd), PostS(nd))
+C09V1OnlyUnsafe(nd) == Judged(nd) /\ ~EmodeMsg(nd) => V1OnlyUnsafe(CfgOf(nd), PreS(nd), PostS(nd))
+C09V1Enabled(nd)    == Judged(nd) => V1OnlyEnabled(CfgOf(nd), PreS(nd), PostS(nd))
+C09V1SeizeExact(nd) == Judged(nd) /\ ~Underwater(PreS(nd), PostS(nd)) => V1SeizeExact(CfgOf(nd), PreS(nd), PostS(nd))
+C09V1Custody(nd)    == Judged(nd) /\ IsV1(nd) /\ nd.a \in {"LiquidateV1", "Tick"} /\ ~Underwater(PreS(nd), PostS(nd)) => V1SeizeCustody(CfgOf(nd), PreS(nd), PostS(nd))
+C09V1Underwater(nd) == Judged(nd) /\ IsV1(nd) /\ nd.a \in {"LiquidateV1", "Tick"} /\ Underwater(PreS(nd), PostS(nd)) =>
+                          V1SeizeExact(CfgOf(nd), PreS(nd), PostS(nd)) /\ V1SeizeCustody(CfgOf(nd), PreS(nd), PostS(nd))
+BidOk1(nd) == ~IsRoot(nd) /\ nd.a = "BidV1" /\ nd.res.ok /\ HasAuc1(PreS(nd), nd.args.auc)
+BidAuc1(nd) == Auc1Of(PreS(nd), nd.args.auc)
+Closing1(nd) == BidOk1(nd) /\ ~HasAuc1(PostS(nd), nd.args.auc)
+Tab1(nd) == BidAuc1(nd).target - BidAuc1(nd).got
+Paid1(nd) == Paid(PreS(nd), PostS(nd), BidAuc1(nd))
+Recv1(nd) == Received(PreS(nd), PostS(nd), BidAuc1(nd))
+C10V1PaidWithin(nd) == BidOk1(nd) => Paid1(nd) >= 0 /\ Paid1(nd) <= Tab1(nd)
+C10V1RecvWithin(nd) == BidOk1(nd) => Recv1(nd) >= 0 /\ Recv1(nd) <= BidAuc1(nd).outLeft + FloorMul(BidAuc1(nd).outLeft, BonusRate(CfgOf(nd), BidAuc1(nd).collA))
+                                     /\ Recv1(nd) <= nd.args.amt + FloorMul(nd.args.amt, BonusRate(CfgOf(nd), BidAuc1(nd).collA))
+C10V1Posted(nd)     == BidOk1(nd) => V1PostedPrice(CfgOf(nd), PreS(nd), PostS(nd), BidAuc1(nd))
+C10V1Remaining(nd)  == BidOk1(nd) /\ ~Closing1(nd) =>
+   LET a == BidAuc1(nd) a2 == Auc1Of(PostS(nd), nd.args.auc) sl == Slice1(a, a2) IN
+   /\ a2.got = a.got + Paid1(nd) /\ a2.got < a2.target /\ sl >= 0 /\ sl <= nd.args.amt
+   /\ Recv1(nd) = sl + FloorMul(sl, BonusRate(CfgOf(nd), a.collA))
+V1B(nd) == GetId(Pre(nd).borrows, BidAuc1(nd).b)
+V1Ready(nd) == BidOk1(nd) /\ HasId(Pre(nd).borrows, BidAuc1(nd).b) /\ HasPair(CfgOf(nd), V1B(nd).pair)
+(* the debt coins a bidder pays go straight back to the debt pool; at close the reserve's share of the accrued interest moves on to the reserve, *)
+(* and a target that the collateral could not cover is made up from the reserve                                                                  *)
+C10V1Proceeds(nd)   == V1Ready(nd) /\ (V1B(nd).bram = 0 \/ V1B(nd).bra # BidAuc1(nd).debtA) =>
+   LET a == BidAuc1(nd) pr == PairC(CfgOf(nd), V1B(nd).pair)
+       toPool == PB(Post(nd), pr.opool, a.debtA).amt - PB(Pre(nd), pr.opool, a.debtA).amt
+       toRes == Res(Post(nd), a.debtA) - Res(Pre(nd), a.debtA) IN
+   IF ~Closing1(nd) THEN toPool = Paid1(nd) /\ toRes = 0
+   ELSE toPool + toRes = Paid1(nd) /\ toRes = RT(PreS(nd), a.b) - (Tab1(nd) - Paid1(nd))
+(* when the target is reached what is left of the collateral goes to the position's owner; the bidder gets the rest (+ bonus) *)
+C10V1Distributes(nd) == Closing1(nd) /\ Paid1(nd) = Tab1(nd) /\ HasUB(Pre(nd), BidAuc1(nd).owner, BidAuc1(nd).collA) =>
+   LET a == BidAuc1(nd) got == UB(Post(nd), a.owner, a.collA).amt - UB(Pre(nd), a.owner, a.collA).amt IN
+   got >= 0 /\ got + Recv1(nd) >= a.outLeft /\ got + Recv1(nd) <= a.outLeft + FloorMul(a.outLeft, BonusRate(CfgOf(nd), a.collA)) + 1
+(* after the last auction on a collateral asset ends nothing of it stays in the auction module *)
+C10V1Settles(nd)    == Closing1(nd) /\ (\A a \in Range(PreS(nd).x.v1aucs) : a.collA = BidAuc1(nd).collA => a.id = nd.args.auc)
+                                   /\ (\A a \in Range(PostS(nd).x.v1aucs) : a.collA # BidAuc1(nd).collA) => Auc1Bal(PostS(nd), BidAuc1(nd).collA) = 0
+C10V1Covers(nd)     == IsV1(nd) => V1Covers(PostS(nd))
+C10V1PriceFalls(nd) == ~IsRoot(nd) /\ IsBlock(nd) => \A a \in Range(PostS(nd).x.v1aucs) :
+   HasAuc1(PreS(nd), a.id) /\ Auc1Of(PreS(nd), a.id).start = a.start => LLe(a.price, Auc1Of(PreS(nd), a.id).price)
+C10V1InBand(nd)     == \A a \in Range(PostS(nd).x.v1aucs) : V1InBand(a)
+C10V1StartPrice(nd) == ~IsRoot(nd) /\ Judged(nd) => \A a \in Range(PostS(nd).x.v1aucs) :
+   (~HasAuc1(PreS(nd), a.id) \/ Auc1Of(PreS(nd), a.id).start # a.start) => V1StartPriceOk(CfgOf(nd), PostS(nd), a)
+(* the position after its auction ended: gone, re-created with what the locked vault still carried, or auctioned again *)
+C10V1RecordsAll(nd) == Closing1(nd) /\ HasLv1(PreS(nd), BidAuc1(nd).lv) /\ V1Ready(nd) =>
+   LET a == BidAuc1(nd) l == Lv1Of(PreS(nd), a.lv) left == Max0(l.aout - a.target) IN
+   IF HasLv1(PostS(nd), l.id)
+   THEN \/ \E a2 \in NewAucs1(PreS(nd), PostS(nd)) : a2.lv = l.id
+        \/ (Lv1Of(PostS(nd), l.id).done /\ ~Lv1Of(PostS(nd), l.id).prog /\ Lv1Of(PostS(nd), l.id).aout = left)   \* the code gave up on another auction (error swallowed); amounts are booked
+   ELSE \/ ~HasId(Post(nd).borrows, a.b)
+        \/ LET b2 == GetId(Post(nd).borrows, a.b) IN ~b2.liq /\ ~b2.uv /\ b2.out = left /\ b2.cin = l.ain /\ b2.iT = 0
+(* NAMED DEVIATION (bridged positions): CreteNewBorrow returns silently when the transit-asset adjustment cannot be paid, after the borrowed total was raised and before the position is stored *)
+C10V1RecordsBr(nd)  == BridgedClose1(nd) => C10V1RecordsAll(nd)
+C10V1Records(nd)    == ~BridgedClose1(nd) => C10V1RecordsAll(nd)
 
 (* ---------------------------------------------------------------- conformance *)
 Walk(nd) == nd.args.mode = "w"
@@ -192,12 +263,16 @@ Conf(nd) ==
 ConfModel(nd) == ~IsRoot(nd) /\ Walk(nd) /\ "mok" \in DOMAIN nd.res => Act(nd, WalkEnv(nd)).ok = nd.res.mok
 
 ConfNames == {"Conf_" \o x : x \in Predicted}
-Formulas == <<"C08_BooksRoot", "C08_BooksLend", "C08_BooksLendHandOver", "C08_BooksLendHandOverDrop", "C08_BooksBorrow", "C08_Ltv", "C08_LtvMismatched", "C08_LtvOpenBridged", "C08_LtvDrawBridged", "C08_PoolHeld",
+Formulas == <<"C08_BooksRoot", "C08_BooksLend", "C08_BooksLendHandOver", "C08_BooksLendHandOverDrop", "C08_BooksBorrow", "C08_BooksBorrowV1Msg", "C08_BooksBorrowV1BridgedClose", "C08_Ltv", "C08_LtvMismatched", "C08_LtvOpenBridged", "C08_LtvDrawBridged", "C08_PoolHeld",
               "C08_NoRelease",
               "C09_BorrowOnlyUnsafe", "C09_BorrowEnabled", "C09_BorrowSeizeExact", "C09_BorrowCustodyMoves", "C09_BorrowLive", "C09_BorrowLiveIlliquid",
               "C10_LendPaidWithinTarget", "C10_LendReceivedWithinSeized", "C10_LendPostedPrice", "C10_LendRemaining", "C10_LendCustody",
               "C10_LendPriceFalls", "C10_LendPriceInBand", "C10_LendStartPrice", "C10_LendProceeds", "C10_LendProceedsEmode",
-              "C10_LendBridgedReturned", "C10_LendOwnerGetsRest", "C10_LendRecords", "Conf_Model", "Conf_Lend", "Conf_Deposit", "Conf_Withdraw", "Conf_CloseLend", "Conf_Borrow", "Conf_BorrowAlt",
+              "C10_LendBridgedReturned", "C10_LendOwnerGetsRest", "C10_LendRecords",
+              "C09_BorrowV1VaultIdsFresh", "C09_BorrowV1OnlyUnsafe", "C09_BorrowV1OnlyUnsafeEmodeMsg", "C09_BorrowV1Enabled", "C09_BorrowV1SeizeExact", "C09_BorrowV1CustodyMoves", "C09_BorrowV1SeizeUnderwater",
+              "C10_LendV1PaidWithinTarget", "C10_LendV1ReceivedWithinLeft", "C10_LendV1PostedPrice", "C10_LendV1Remaining", "C10_LendV1Proceeds",
+              "C10_LendV1CloseDistributes", "C10_LendV1CloseSettles", "C10_LendV1CustodyCovers", "C10_LendV1PriceFalls", "C10_LendV1PriceInBand",
+              "C10_LendV1StartPrice", "C10_LendV1Records", "C10_LendV1RecordsBridged", "Conf_Model", "Conf_Lend", "Conf_Deposit", "Conf_Withdraw", "Conf_CloseLend", "Conf_Borrow", "Conf_BorrowAlt",
               "Conf_DepositBorrow", "Conf_Draw", "Conf_Repay", "Conf_CloseBorrow", "Conf_RepayWithdraw", "Conf_FundReserve", "Conf_Price",
               "Conf_Accrue", "Conf_Liquidate", "Conf_FundMod", "Conf_CalcInterest">>
 Holds(f, i) ==
@@ -207,6 +282,8 @@ Holds(f, i) ==
     [] f = "C08_BooksLendHandOver" -> C08BooksLendHO(nd)
     [] f = "C08_BooksLendHandOverDrop" -> C08BooksLendHD(nd)
     [] f = "C08_BooksBorrow" -> C08BooksBorrow(nd)
+    [] f = "C08_BooksBorrowV1Msg" -> C08BooksBorrowV1(nd)
+    [] f = "C08_BooksBorrowV1BridgedClose" -> C08BooksBorrowBr(nd)
     [] f = "C08_LtvMismatched" -> C08LtvMis(nd)
     [] f = "C08_Ltv" -> C08Ltv(nd)
     [] f = "C08_LtvOpenBridged" -> C08LtvOpenBr(nd)
@@ -232,10 +309,32 @@ Holds(f, i) ==
     [] f = "C10_LendBridgedReturned" -> C10Bridged(nd)
     [] f = "C10_LendOwnerGetsRest" -> C10Owner(nd)
     [] f = "C10_LendRecords" -> C10Records(nd)
+    [] f = "C09_BorrowV1VaultIdsFresh" -> C09V1Fresh(nd)
+    [] f = "C09_BorrowV1OnlyUnsafeEmodeMsg" -> C09V1OnlyUnsafeEM(nd)
+    [] f = "C10_LendV1RecordsBridged" -> C10V1RecordsBr(nd)
+    [] f = "C09_BorrowV1OnlyUnsafe" -> C09V1OnlyUnsafe(nd)
+    [] f = "C09_BorrowV1Enabled" -> C09V1Enabled(nd)
+    [] f = "C09_BorrowV1SeizeExact" -> C09V1SeizeExact(nd)
+    [] f = "C09_BorrowV1CustodyMoves" -> C09V1Custody(nd)
+    [] f = "C09_BorrowV1SeizeUnderwater" -> C09V1Underwater(nd)
+    [] f = "C10_LendV1PaidWithinTarget" -> C10V1PaidWithin(nd)
+    [] f = "C10_LendV1ReceivedWithinLeft" -> C10V1RecvWithin(nd)
+    [] f = "C10_LendV1PostedPrice" -> C10V1Posted(nd)
+    [] f = "C10_LendV1Remaining" -> C10V1Remaining(nd)
+    [] f = "C10_LendV1Proceeds" -> C10V1Proceeds(nd)
+    [] f = "C10_LendV1CloseDistributes" -> C10V1Distributes(nd)
+    [] f = "C10_LendV1CloseSettles" -> C10V1Settles(nd)
+    [] f = "C10_LendV1CustodyCovers" -> C10V1Covers(nd)
+    [] f = "C10_LendV1PriceFalls" -> C10V1PriceFalls(nd)
+    [] f = "C10_LendV1PriceInBand" -> C10V1InBand(nd)
+    [] f = "C10_LendV1StartPrice" -> C10V1StartPrice(nd)
+    [] f = "C10_LendV1Records" -> C10V1Records(nd)
     [] f = "Conf_Model" -> ConfModel(nd)
     [] OTHER -> (f = "Conf_" \o nd.a) => Conf(nd)
 
-Judge == \A k \in 1..Len(Formulas) : Holds(Formulas[k], cur) \/ PrintT(<<"FAIL", Formulas[k], cur>>)
+(* after a first-generation vault has been overwritten only that fact is judged: everything later in the behaviour is its consequence *)
+Judge == LET sane == Sane(cur) IN
+         \A k \in 1..Len(Formulas) : (Formulas[k] # "C09_BorrowV1VaultIdsFresh" /\ ~sane) \/ Holds(Formulas[k], cur) \/ PrintT(<<"FAIL", Formulas[k], cur>>)
 
 (* ---------------------------------------------------------------- antecedent counters (vacuity control) *)
 Count(Q(_)) == Cardinality({i \in 1..NLog : Q(Nd(i))})
@@ -289,6 +388,24 @@ Stats == PrintT(<<"STATS", [nodes |-> NLog,
            ownerRefunds |-> Count(LAMBDA nd : CloseReady(nd) /\ BidAuc(nd).collLeft > Received(PreS(nd), PostS(nd), BidAuc(nd))),
            auctionBlocks |-> Count(LAMBDA nd : ~IsRoot(nd) /\ IsBlock(nd) /\ LendDutch(PostS(nd)) # {}),
            restarts |-> Count(LAMBDA nd : ~IsRoot(nd) /\ IsBlock(nd) /\ \E a \in LendDutch(PostS(nd)) : HasAuc(PreS(nd), a.id) /\ AucOf(PreS(nd), a.id).start # a.start),
+           v1Seizures |-> Count(LAMBDA nd : Judged(nd) /\ SeizedV1(PreS(nd), PostS(nd)) # {}),
+           v1SweepSeizures |-> Count(LAMBDA nd : Judged(nd) /\ nd.a = "Tick" /\ SeizedV1(PreS(nd), PostS(nd)) # {}),
+           v1SafeRequests |-> Count(LAMBDA nd : Judged(nd) /\ nd.a = "LiquidateV1" /\ nd.res.ok /\ SeizedV1(PreS(nd), PostS(nd)) = {}),
+           v1KilledSteps |-> Count(LAMBDA nd : Judged(nd) /\ IsV1(nd) /\ PreS(nd).x.ks /\ nd.a \in {"LiquidateV1", "Tick"}),
+           v1UnderwaterSeizures |-> Count(LAMBDA nd : Judged(nd) /\ Underwater(PreS(nd), PostS(nd))),
+           v1EmodeSeizures |-> Count(LAMBDA nd : Judged(nd) /\ \E b \in SeizedV1(PreS(nd), PostS(nd)) : PairC(CfgOf(nd), b.pair).emode),
+           v1Overwrites |-> Count(LAMBDA nd : Judged(nd) /\ IsV1(nd) /\ OverwritesVault(PreS(nd), PostS(nd))),
+           v1NotJudgedAfterOverwrite |-> Cardinality({i \in 1..NLog : ~Sane(i)}),
+           v1BridgedCloses |-> Count(BridgedClose1),
+           v1Bids |-> Count(BidOk1),
+           v1PartialBids |-> Count(LAMBDA nd : BidOk1(nd) /\ ~Closing1(nd)),
+           v1ClosingBids |-> Count(Closing1),
+           v1OversizedClosing |-> Count(LAMBDA nd : Closing1(nd) /\ Paid1(nd) = Tab1(nd) /\ Recv1(nd) < nd.args.amt),
+           v1ShortfallCloses |-> Count(LAMBDA nd : Closing1(nd) /\ Paid1(nd) < Tab1(nd)),
+           v1Reauctions |-> Count(LAMBDA nd : Closing1(nd) /\ HasLv1(PostS(nd), BidAuc1(nd).lv)),
+           v1Recreated |-> Count(LAMBDA nd : Closing1(nd) /\ ~HasLv1(PostS(nd), BidAuc1(nd).lv) /\ HasId(Post(nd).borrows, BidAuc1(nd).b)),
+           v1AuctionBlocks |-> Count(LAMBDA nd : ~IsRoot(nd) /\ IsBlock(nd) /\ Len(PostS(nd).x.v1aucs) > 0),
+           v1Restarts |-> Count(LAMBDA nd : ~IsRoot(nd) /\ IsBlock(nd) /\ \E a \in Range(PostS(nd).x.v1aucs) : HasAuc1(PreS(nd), a.id) /\ Auc1Of(PreS(nd), a.id).start # a.start),
            confChecked |-> Count(Predictable),
            confOkSteps |-> Count(LAMBDA nd : Predictable(nd) /\ nd.res.ok) ]>>)
 AllSeen == Stats /\ TLCGet("stats").distinct = NLog
